@@ -205,6 +205,7 @@ OnlyAddsBetween(t, p, k) == IF k >= Len(p) THEN TRUE ELSE TermAt(t, SubSeq(p, 1,
 MoveType(t, p) ==
   LET n == TermAt(t, p)  pk == ParentKind(t, p) IN
   IF t.k # "eq" \/ Len(p) = 0 \/ pk = "eq" THEN "none"
+  ELSE IF t.l.k = "eq" \/ t.r.k = "eq" THEN "none"            \* chained equations are refused
   ELSE IF pk = "mul" /\ n.k = "c" /\ ~(HasVal(n) /\ ValQ(n)[1] = 0)
        THEN (IF ContainsKind(IF p[1] = "L" THEN t.l ELSE t.r, "add") THEN "none" ELSE "const_of_multiply")
   ELSE IF pk = "add" THEN
